@@ -1,12 +1,13 @@
 #!/bin/bash
 # seedregress.sh : re-run, for every kept seeded change, the quick check of the property it breaks
 # against a scratch worktree of /repo with the change applied (VERIF_REPO; /repo itself is not touched).
-# Prints one line per change; exit 0 iff every change is reported (rc=1) by its check.
+# SEED_ONLY=<regex> restricts the run to matching ids. Prints one line per change; exit 0 iff every change is reported (rc=1) by its check.
 cd "$(dirname "$0")"
 miss=0
 for d in seeded/*/; do
   id=$(basename $d)
   [ -f $d/patch.diff ] || continue
+  if [ -n "$SEED_ONLY" ] && ! echo "$id" | grep -Eq "$SEED_ONLY"; then continue; fi
   if grep -q obsolete_after_fix $d/meta.json; then echo "$id skipped (no longer observable after a fix: see meta.json)"; continue; fi
   prop=$(python3 -c "import json;print(json.load(open('$d/meta.json'))['breaks_property'])")
   wt=/dev/shm/seedwt-$id
